@@ -14,6 +14,8 @@ _TAPE_ASSUME = [
     'a neutral file is modelled as the sequence of typed records (text layer: 15 digits, NA token, comments, line breaks not encoded)',
     'values are moved as exact reals / ints: TEST and ITEST travel as ordinary values',
 ]
+# objects are raw storage without a vptr: the sanitizer replay must not stop on its vptr check before reaching the real code
+_RAWFLAGS = ['-fno-sanitize=vptr']
 _SPACE_STUB = 'ASpaceObject::getNDim / setNDim: the space context is one integer cell (SpaceRN construction, ESpaceType check not executed)'
 
 _NEIGH_TUS = ['src/Neigh/NeighMoving.cpp', 'src/Neigh/ANeigh.cpp', 'src/Geometry/BiTargetCheckDistance.cpp',
@@ -35,10 +37,10 @@ for _name, _mode, _nd, _tiers in (('iso', 0, 2, ('quick', 'thorough')), ('aniso'
                                   'BiTargetCheckDistance::create(radius, coeffs, angles); number of coefficients == space dimension; '
                                   'radius > 0, coefficients > 0; mode rot: first angle non-zero (rotation present)',
                                   'cos/sin of the rotation angles are uninterpreted (values only moved)'],
-      stubs=_TAPE_STUBS + [_SPACE_STUB])
+      cxxflags=_RAWFLAGS, stubs=_TAPE_STUBS + [_SPACE_STUB])
 
 _NEIGHB_TUS = ['src/Neigh/NeighUnique.cpp', 'src/Neigh/NeighBench.cpp', 'src/Neigh/NeighCell.cpp', 'src/Neigh/NeighImage.cpp',
-               'src/Neigh/ANeigh.cpp', 'src/Geometry/BiTargetCheckBench.cpp', 'src/Geometry/ABiTargetCheck.cpp']
+               'src/Neigh/ANeigh.cpp', 'src/Geometry/BiTargetCheckBench.cpp', 'src/Geometry/ABiTargetCheck.cpp', 'src/Basic/AStringable.cpp']
 for _name, _entry, _defs, _bound, _what in (
         ('unique', 'k_unique', {}, 'space dimension 1..5', 'NeighUnique'),
         ('bench', 'k_bench', {}, 'space dimension 1..5, width an arbitrary real >= 0', 'NeighBench (checker built by the real BiTargetCheckBench::create)'),
@@ -53,4 +55,47 @@ for _name, _entry, _defs, _bound, _what in (
                    'getters of the reloaded object agree, re-serialising gives the same records; memory safety of the loader',
       out='fields absent from the file format (flagXvalid, flagKFold, ball-search options), the text layer, file open / class tag check',
       assumptions=_TAPE_ASSUME + ['objects are raw storage holding the fields the constructors store; the object loaded into is in the default-constructed state'],
-      stubs=_TAPE_STUBS + [_SPACE_STUB])
+      cxxflags=_RAWFLAGS, stubs=_TAPE_STUBS + [_SPACE_STUB])
+
+_POLY_TUS = ['src/Polygon/Polygons.cpp', 'src/Polygon/PolyElem.cpp', 'src/Basic/PolyLine2D.cpp', 'src/Basic/AStringable.cpp',
+             'src/Basic/ASerializable.cpp', 'src/Basic/Utilities.cpp']
+for _name, _entry, _what in (('polyline', 'k_polyline', 'PolyLine2D'), ('polyelem', 'k_polyelem', 'PolyElem (+ PolyLine2D part)'),
+                             ('polygons', 'k_polygons', 'Polygons (+ PolyElem, PolyLine2D parts, virtual dispatch, addPolyElem)')):
+    K('C08.c.' + _name, property='C08', engine='symex', harness='C08/polygons.cpp', entry=_entry, tus=_POLY_TUS,
+      defines={'quick': {'VF_NV': 3, 'VF_NPOL': 2}, 'thorough': {'VF_NV': 5, 'VF_NPOL': 3, 'VF_TAPE_CAP': 80}},
+      bounds={'quick': '3 vertices per line/element, 2 elements per set; coordinates and vertical limits arbitrary reals (TEST included)',
+              'thorough': '5 vertices per line/element, 3 elements per set'},
+      timeout_ms={'quick': 60000, 'thorough': 300000}, validate={'quick': 20, 'thorough': 40}, validate_doubles='dyadic',
+      what=_what + '::_serialize -> ::_deserialize: records consumed in order and type, both return true, getters of the reloaded '
+                   'object agree, re-serialising gives the same records',
+      out='the text layer (15 digits), file open / class tag check; elements with fewer than 3 vertices (dropped by addPolyElem)',
+      assumptions=_TAPE_ASSUME + ['objects built by their real constructors; loaded into a default-constructed object'],
+      stubs=_TAPE_STUBS)
+
+_MAT_TUS = ['src/Matrix/Table.cpp', 'src/Matrix/MatrixRectangular.cpp', 'src/Matrix/AMatrixDense.cpp', 'src/Matrix/AMatrix.cpp',
+            'src/Basic/AStringable.cpp', 'src/Basic/ASerializable.cpp', 'src/Basic/Utilities.cpp', 'src/Basic/VectorHelper.cpp']
+K('C08.d.table', property='C08', engine='symex', harness='C08/table.cpp', entry='k_table', tus=_MAT_TUS,
+  defines={'quick': {'VF_NR': 2, 'VF_NC': 3}, 'thorough': {'VF_NR': 4, 'VF_NC': 4}},
+  bounds={'quick': '2 rows x 3 columns, arbitrary real values (TEST included)', 'thorough': '4 rows x 4 columns'},
+  timeout_ms={'quick': 60000, 'thorough': 300000}, validate={'quick': 20, 'thorough': 40}, validate_doubles='dyadic',
+  what='Table::_serialize -> Table::_deserialize (with Table::reset, AMatrixDense get/setValue): records consumed in order and type, '
+       'both return true, shape and values of the reloaded table agree, re-serialising gives the same records',
+  out='title, row and column names (not part of the file format); the text layer; file open / class tag check',
+  assumptions=_TAPE_ASSUME + ['table built by its real constructor; loaded into a default-constructed table'],
+  stubs=_TAPE_STUBS)
+
+_GRID_TUS = ['src/Db/DbGrid.cpp', 'src/Db/Db.cpp', 'src/Basic/Grid.cpp', 'src/Basic/Rotation.cpp', 'src/Geometry/GeometryHelper.cpp',
+             'src/Matrix/MatrixSquareGeneral.cpp', 'src/Matrix/AMatrixSquare.cpp', 'src/Matrix/MatrixRectangular.cpp',
+             'src/Matrix/AMatrixDense.cpp', 'src/Matrix/AMatrix.cpp', 'src/Basic/AStringable.cpp', 'src/Basic/ASerializable.cpp',
+             'src/Basic/Utilities.cpp', 'src/Basic/VectorHelper.cpp']
+for _nd, _tiers in ((2, ('quick', 'thorough')), (3, ('thorough',))):
+    K('C08.d.dbgrid.%d' % _nd, property='C08', engine='symex', harness='C08/dbgrid.cpp', entry='k_dbgrid_header', tus=_GRID_TUS,
+      defines={'all': {'VF_NDIM': _nd}}, tiers=_tiers,
+      bounds={'quick': 'space dimension %d; nx in [1, 2^20], dx > 0, x0 and angles arbitrary reals' % _nd},
+      timeout_ms={'quick': 60000, 'thorough': 300000}, validate={'quick': 20, 'thorough': 40}, validate_doubles='dyadic',
+      what='DbGrid::_serialize -> DbGrid::_deserialize, grid header only (with DbGrid::gridDefine, Grid::resetFromVector, Rotation::setAngles): '
+           'records consumed in order and type, both return true, NX/X0/DX/angles of the reloaded grid agree, re-serialising gives the same records',
+      out='the Db part of the file (columns, names, locators, values): Db::_serialize/_deserialize are cut; the text layer; file open / class tag check',
+      assumptions=_TAPE_ASSUME + ['DbGrid objects built by the real default constructor + gridDefine; cos/sin uninterpreted'],
+      stubs=_TAPE_STUBS + ['Db::_serialize, Db::_deserialize: return true without reading or writing (Db part outside the kernel)',
+                         'Db::_clear: empty (locator tables not built: the ELoc enumeration needs static constructors)'])
